@@ -130,11 +130,43 @@ impl Scheduler for Explicit {
     }
 }
 
+/// Random scheduler with stickiness: stays on the running task with probability `stay`/256,
+/// otherwise picks uniformly. Long uninterrupted bursts followed by a switch are what exposes a
+/// "flag set before the data is complete" initialisation; needs no warm-up execution (unlike PCT).
+struct Burst {
+    rng: Rng,
+    stay: u64,
+    started: bool,
+}
+
+impl Scheduler for Burst {
+    fn new_execution(&mut self) -> Option<Schedule> {
+        if self.started {
+            None
+        } else {
+            self.started = true;
+            Some(Schedule::new(0))
+        }
+    }
+    fn next_task(&mut self, runnable: &[&Task], current: Option<TaskId>, _y: bool) -> Option<TaskId> {
+        if let Some(c) = current {
+            if self.rng.below(256) < self.stay && runnable.iter().any(|t| t.id() == c) {
+                return Some(c);
+            }
+        }
+        Some(runnable[self.rng.usize_below(runnable.len())].id())
+    }
+    fn next_u64(&mut self) -> u64 {
+        self.rng.next_u64()
+    }
+}
+
 #[derive(Clone, Debug)]
 enum SchedKind {
     Random,
     Pct(usize),
     RoundRobin,
+    Burst(u64),
 }
 
 impl SchedKind {
@@ -143,6 +175,7 @@ impl SchedKind {
             SchedKind::Random => "random".into(),
             SchedKind::Pct(d) => format!("pct{}", d),
             SchedKind::RoundRobin => "round_robin".into(),
+            SchedKind::Burst(p) => format!("burst{}", p),
         }
     }
     fn make(&self, seed: u64, iters: usize) -> Box<dyn Scheduler> {
@@ -150,6 +183,7 @@ impl SchedKind {
             SchedKind::Random => Box::new(RandomScheduler::new_from_seed(seed, iters)),
             SchedKind::Pct(d) => Box::new(PctScheduler::new_from_seed(seed, *d, iters)),
             SchedKind::RoundRobin => Box::new(RoundRobinScheduler::new(1)),
+            SchedKind::Burst(p) => Box::new(Burst { rng: Rng::new(seed), stay: *p, started: false }),
         }
     }
 }
@@ -383,7 +417,14 @@ fn tier_cfg(tier: &str) -> GenCfg {
 
 fn plan_run(seed: u64, idx: u64, tier: &str) -> RunPlan {
     let mut rng = Rng::derive(seed, idx, 16);
-    let w = gen_workload(&mut rng, &tier_cfg(tier));
+    let cfg = tier_cfg(tier);
+    let w = if rng.chance(1, 4) {
+        let nthreads = 2 + rng.usize_below(cfg.max_threads - 1);
+        let phases = 1 + rng.usize_below(cfg.max_calls);
+        gen_phased_workload(&mut rng, nthreads, phases)
+    } else {
+        gen_workload(&mut rng, &cfg)
+    };
     let sched = match rng.below(10) {
         0..=4 => SchedKind::Random,
         5..=8 => SchedKind::Pct(1 + rng.usize_below(5)),
@@ -461,6 +502,100 @@ fn worker(seed: u64, from: u64, to: u64, tier: &str) -> (Value, i32) {
     (out, code)
 }
 
+/// One workload, one schedule, this fresh process; then, still in this process, every distinct
+/// abstract call once more on a single thread (static and fresh-instance form): whatever the
+/// racing first use left behind in plain statics must not change any answer.
+fn cold(seed: u64, index: u64, tier: &str) -> (Value, i32) {
+    init_shuttle_hook();
+    let sink = new_sink();
+    let harness_err = cold_into(&sink, seed, index, tier);
+    cold_report(&sink, seed, index, tier, harness_err)
+}
+
+fn cold_into(sink: &Arc<Mutex<Sink>>, seed: u64, index: u64, tier: &str) -> Option<String> {
+    let mut rng = Rng::derive(seed, index, 1616);
+    let cfg = tier_cfg(tier);
+    let w = if rng.chance(3, 4) {
+        let nthreads = 2 + rng.usize_below(cfg.max_threads - 1);
+        let phases = 1 + rng.usize_below(4);
+        gen_phased_workload(&mut rng, nthreads, phases)
+    } else {
+        let mut w = gen_workload(&mut rng, &cfg);
+        for t in &mut w.threads {
+            t.after = 0;
+            t.parent = 0;
+        }
+        w
+    };
+    let sched = if rng.chance(1, 2) { SchedKind::Random } else { SchedKind::Burst(*rng.pick(&[128u64, 192, 224, 240, 250])) };
+    let sched_seed = rng.next_u64();
+    let origin = format!("seed={} cold={} sched={}", seed, index, sched.name());
+    {
+        let mut s = sink.lock().unwrap();
+        s.stats.runs += 1;
+        *s.stats.by_sched.entry(format!("cold_{}", sched.name())).or_insert(0) += 1;
+        *s.stats.by_threads.entry(w.threads.len()).or_insert(0) += 1;
+    }
+    let mut harness_err = None;
+    let r = run_workload(sink, Arc::new(w.clone()), &origin, sched.make(sched_seed, 1));
+    if let Err(m) = r {
+        if m.contains("deadlock") {
+            sink.lock().unwrap().violation = Some(json!({"kind": "deadlock", "message": m, "second": {"coordinates": {"origin": origin, "workload": w.to_json()}}}));
+        } else if !m.contains("did not exercise any concurrency") {
+            harness_err = Some(m);
+        }
+    }
+    if sink.lock().unwrap().violation.is_none() && harness_err.is_none() {
+        let mut calls = vec![];
+        let mut seen = BTreeSet::new();
+        for t in &w.threads {
+            for c in &t.calls {
+                if seen.insert(AbstractCall::of(&w, c)) {
+                    for api in [1u8, 0u8] {
+                        calls.push(Call { api, fa: 0, fb: 0, ..c.clone() });
+                    }
+                }
+            }
+        }
+        let refw = Workload { pool: w.pool.clone(), threads: vec![ThreadPlan { parent: 0, after: 0, calls }] };
+        if let Err(m) = run_workload(sink, Arc::new(refw), &format!("{} sequential re-evaluation in the same process", origin), Box::new(RoundRobinScheduler::new(1))) {
+            harness_err = Some(m);
+        }
+    }
+    harness_err
+}
+
+fn cold_report(sink: &Arc<Mutex<Sink>>, seed: u64, index: u64, tier: &str, harness_err: Option<String>) -> (Value, i32) {
+    let s = sink.lock().unwrap();
+    let rec = s.rec.lock().unwrap();
+    let st = &s.stats;
+    let out = json!({
+        "seed": seed, "cold_index": index, "tier": tier, "cold_executions": 1,
+        "runs": 0, "executions": rec.executions, "checked_executions": st.executions,
+        "sched_steps": rec.total_steps, "context_switches": rec.switches,
+        "calls": st.calls, "panicked_calls": st.panicked_calls,
+        "overlapping_pairs": st.overlapping_pairs, "first_use_overlaps": st.first_use_overlaps,
+        "late_spawns": st.late_spawns, "early_exits": st.early_exits, "multi_thread_execs": st.multi_thread_execs,
+        "by_sched": st.by_sched, "by_threads": st.by_threads.iter().map(|(k, v)| (k.to_string(), *v)).collect::<BTreeMap<_, _>>(),
+        "coords": st.coords.iter().map(|c| json!([c.0, c.1, c.2, c.3])).collect::<Vec<_>>(),
+        "outcome_kinds": st.outcome_kinds,
+        "distinct_nontrivial": st.distinct_nontrivial.iter().map(|h| format!("{:016x}", h)).collect::<Vec<_>>(),
+        "distinct_all_count": st.distinct_all.len(),
+        "abstract_calls": s.oracle.m.len(),
+        "abstract_calls_seen_2plus": s.oracle.m.values().filter(|x| x.count >= 2).count(),
+        "abstract_calls_seen_10plus": s.oracle.m.values().filter(|x| x.count >= 10).count(),
+        "samples": [],
+        "violation": s.violation,
+        "failing_run": null,
+        "harness_error": harness_err,
+        "observed": s.oracle.m.iter().filter(|(k, _)| mix64(simcore::hash_bytes(k.key().as_bytes()) ^ seed) % 16 == 0).take(2)
+            .map(|(k, v)| json!({"profile": k.profile, "kind": k.kind, "a_hex": simcore::hex(k.a.as_bytes()), "b_hex": simcore::hex(k.b.as_bytes()), "outcome": v.outcome.to_line(), "coord": v.coord["origin"]}))
+            .collect::<Vec<_>>(),
+    });
+    let code = if harness_err.is_some() { 2 } else if s.violation.is_some() { 1 } else { 0 };
+    (out, code)
+}
+
 // ------------------------------------------------------------------ replay files
 
 /// history item: explicit {workload, schedule_task_ids} or seeded {seed, from, to, tier}
@@ -495,6 +630,12 @@ fn run_history(items: &[Value], strict: bool, search: usize) -> Result<Option<Va
                 if sink.lock().unwrap().violation.is_some() {
                     break;
                 }
+            }
+        } else if let Some(ci) = it.get("cold_index").and_then(|x| x.as_u64()) {
+            let seed = it.get("seed").and_then(|x| x.as_u64()).ok_or("bad cold item")?;
+            let tier = it.get("tier").and_then(|x| x.as_str()).unwrap_or("quick").to_string();
+            if let Some(m) = cold_into(&sink, seed, ci, &tier) {
+                return Err(m);
             }
         } else {
             let seed = it.get("seed").and_then(|x| x.as_u64()).ok_or("bad seeded item")?;
@@ -835,77 +976,66 @@ fn cmd_driver(args: &[String]) -> i32 {
     let scratch = out.parent().unwrap().join(format!("c16s-{}", std::process::id()));
     let _ = std::fs::create_dir_all(&scratch);
     let timeout_s: u64 = arg_val(args, "--chunk-timeout").and_then(|x| x.parse().ok()).unwrap_or(300);
+    let ncold: u64 = arg_val(args, "--cold").and_then(|x| x.parse().ok()).unwrap_or(if tier == "thorough" { 200_000 } else { 6_000 });
     let t0 = std::time::Instant::now();
     let nchunks = (runs + chunk - 1) / chunk;
-    let mut next = 0u64;
-    let mut running: Vec<(u64, std::process::Child, PathBuf, std::time::Instant)> = vec![];
-    let mut results: BTreeMap<u64, (i32, Value)> = BTreeMap::new();
-    let mut inconclusive: Vec<u64> = vec![];
     let exe = std::env::current_exe().unwrap();
-    let mut first_bad: Option<u64> = None;
-    loop {
-        while running.len() < jobs && next < nchunks && first_bad.map(|b| next < b).unwrap_or(true) {
-            let from = next * chunk;
-            let to = ((next + 1) * chunk).min(runs);
-            let of = scratch.join(format!("chunk-{}.json", next));
-            let child = std::process::Command::new(&exe)
-                .args(["worker", "--seed", &seed.to_string(), "--from", &from.to_string(), "--to", &to.to_string(), "--tier", &tier, "--out"])
-                .arg(&of)
-                .env_remove("SHUTTLE_RANDOM_SEED")
-                .stdout(std::process::Stdio::null())
-                .spawn();
-            match child {
-                Ok(c) => running.push((next, c, of, std::time::Instant::now())),
-                Err(e) => {
-                    eprintln!("HARNESS: cannot spawn worker: {}", e);
-                    return 2;
-                }
-            }
-            next += 1;
-        }
-        if running.is_empty() {
-            break;
-        }
-        let mut i = 0;
-        let mut progressed = false;
-        while i < running.len() {
-            let done = match running[i].1.try_wait() {
-                Ok(Some(st)) => Some(st.code().unwrap_or(2)),
-                Ok(None) => {
-                    if running[i].3.elapsed().as_secs() > timeout_s {
-                        let _ = running[i].1.kill();
-                        let _ = running[i].1.wait();
-                        Some(-9)
+    let mut inconclusive: Vec<u64> = vec![];
+    let mut results: BTreeMap<u64, (i32, Value)> = BTreeMap::new();
+    {
+        let (exe, tier) = (exe.clone(), tier.clone());
+        let mk = move |n: u64, of: &Path| {
+            let mut c = std::process::Command::new(&exe);
+            c.args(["worker", "--seed", &seed.to_string(), "--from", &(n * chunk).to_string(), "--to", &((n + 1) * chunk).min(runs).to_string(), "--tier", &tier, "--out"]).arg(of);
+            c
+        };
+        match simcore::pool::run_chunks(nchunks, jobs, &scratch, std::time::Duration::from_secs(timeout_s), &mk) {
+            Ok(r) => {
+                for (n, cr) in r {
+                    if cr.code == -9 {
+                        inconclusive.push(n);
                     } else {
-                        None
+                        results.insert(n, (cr.code, cr.value));
                     }
                 }
-                Err(_) => Some(2),
-            };
-            if let Some(code) = done {
-                let (n, _c, of, _) = running.remove(i);
-                progressed = true;
-                if code == -9 {
-                    inconclusive.push(n);
-                } else {
-                    let v = read_json(&of).unwrap_or(json!({"harness_error": format!("worker for chunk {} wrote no result (exit {})", n, code)}));
-                    let _ = std::fs::remove_file(&of);
-                    if code != 0 {
-                        first_bad = Some(first_bad.map(|b| b.min(n)).unwrap_or(n));
-                    }
-                    results.insert(n, (code, v));
-                }
-            } else {
-                i += 1;
             }
-        }
-        if !progressed {
-            std::thread::sleep(std::time::Duration::from_millis(2));
+            Err(e) => {
+                eprintln!("HARNESS: {}", e);
+                return 2;
+            }
         }
     }
+    // cold executions: one workload, one schedule, one fresh process each, so that state the
+    // library keeps in plain statics (hand-rolled lazy initialisation, caches) is cold every
+    // time; numbered after the warm chunks so that the merge order stays deterministic
+    let warm_bad = results.iter().any(|(_, (c, _))| *c != 0);
+    if !warm_bad && ncold > 0 {
+        let (exe, tier) = (exe.clone(), tier.clone());
+        let mk = move |n: u64, of: &Path| {
+            let mut c = std::process::Command::new(&exe);
+            c.args(["cold", "--seed", &seed.to_string(), "--index", &n.to_string(), "--tier", &tier, "--out"]).arg(of);
+            c
+        };
+        match simcore::pool::run_chunks(ncold, jobs, &scratch, std::time::Duration::from_secs(timeout_s), &mk) {
+            Ok(r) => {
+                for (n, cr) in r {
+                    if cr.code == -9 {
+                        inconclusive.push(nchunks + n);
+                    } else {
+                        results.insert(nchunks + n, (cr.code, cr.value));
+                    }
+                }
+            }
+            Err(e) => {
+                eprintln!("HARNESS: {}", e);
+                return 2;
+            }
+        }
+    }
+    let first_bad: Option<u64> = results.iter().find(|(_, (c, _))| *c != 0).map(|(n, _)| *n);
     // ---- merge (deterministic: by chunk index; chunks after the first bad one are ignored)
     let mut tot: BTreeMap<&str, u64> = BTreeMap::new();
-    let keys = ["runs", "executions", "checked_executions", "sched_steps", "context_switches", "calls", "panicked_calls", "overlapping_pairs", "late_spawns", "early_exits", "multi_thread_execs", "distinct_all_count", "abstract_calls", "abstract_calls_seen_2plus", "abstract_calls_seen_10plus"];
+    let keys = ["cold_executions", "runs", "executions", "checked_executions", "sched_steps", "context_switches", "calls", "panicked_calls", "overlapping_pairs", "late_spawns", "early_exits", "multi_thread_execs", "distinct_all_count", "abstract_calls", "abstract_calls_seen_2plus", "abstract_calls_seen_10plus"];
     let mut first_use = [0u64; 4];
     let mut by_sched: BTreeMap<String, u64> = BTreeMap::new();
     let mut by_threads: BTreeMap<String, u64> = BTreeMap::new();
@@ -963,7 +1093,7 @@ fn cmd_driver(args: &[String]) -> i32 {
         if *code == 1 && violation.is_none() {
             if let Some(vi) = v.get("violation") {
                 if !vi.is_null() {
-                    violation = Some((*n, json!({"violation": vi, "failing_run": v.get("failing_run"), "chunk_from": v.get("from"), "chunk_to": v.get("to")})));
+                    violation = Some((*n, json!({"violation": vi, "failing_run": v.get("failing_run"), "chunk_from": v.get("from"), "chunk_to": v.get("to"), "cold_index": v.get("cold_index")})));
                 }
             }
         }
@@ -1045,6 +1175,10 @@ fn cmd_driver(args: &[String]) -> i32 {
                 }
             }
         }
+        if !written && v["cold_index"].is_u64() {
+            let _ = write_json(&rpath, &header(vec![json!({"seed": seed, "cold_index": v["cold_index"], "tier": tier})], "seeded_cold_execution"));
+            written = true;
+        }
         if !written {
             let from = v["chunk_from"].as_u64().unwrap_or(0);
             let fr = v["failing_run"].as_u64().unwrap_or(from);
@@ -1068,6 +1202,19 @@ fn main() {
             let to = arg_val(&args, "--to").and_then(|x| x.parse().ok()).unwrap_or(1);
             let tier = arg_val(&args, "--tier").unwrap_or_else(|| "quick".into());
             let (v, code) = worker(seed, from, to, &tier);
+            match arg_val(&args, "--out") {
+                Some(p) => {
+                    let _ = write_json(Path::new(&p), &v);
+                }
+                None => println!("{}", serde_json::to_string(&v).unwrap()),
+            }
+            code
+        }
+        "cold" => {
+            let seed = arg_val(&args, "--seed").and_then(|x| x.parse().ok()).unwrap_or_else(simcore::verif_seed);
+            let index = arg_val(&args, "--index").and_then(|x| x.parse().ok()).unwrap_or(0);
+            let tier = arg_val(&args, "--tier").unwrap_or_else(|| "quick".into());
+            let (v, code) = cold(seed, index, &tier);
             match arg_val(&args, "--out") {
                 Some(p) => {
                     let _ = write_json(Path::new(&p), &v);
